@@ -130,6 +130,9 @@ func (w *c13World) check() (viols []c13Viol) {
 		for _, p := range c13Pos {
 			truth[p] = ver.bodyAt(p)
 		}
+		for p := range ver.elems { // elements outside the menu (bulk block ingestion)
+			truth[p] = ver.bodyAt(p)
+		}
 		{
 			w.reads++
 			L, r := lmGetRaw(u, "lm", [3]int{c13X0, 0, 0}, [3]int{c13NX, c13NY, c13NZ}, false, 0)
@@ -697,6 +700,42 @@ func runC13(c *vlib.Ctx) {
 		c.Set(fmt.Sprintf("frontier_depth%d", lvl), len(frontier))
 		c.Set(fmt.Sprintf("expanded_depth%d", lvl), expanded)
 		frontier = next
+	}
+
+	// Bulk ingestion: three adjacent blocks of 520 elements each (1560 elements, 2340 tag entries) posted with POST blocks
+	// and rebuilt by each reload mode; the low-memory reload flushes its tag and label buffers every 1000 entries, so one
+	// tag and (after merging body 2 into body 1) one body are spread over several flushes. Every prefix is its own job.
+	{
+		merge := c13Op{K: "merge", A: 1, B: []uint64{2}}
+		var paths [][]c13Op
+		for _, m := range []string{"low", "mem", "check"} {
+			bulk := c13Op{K: "bulkblocks", V: m}
+			paths = append(paths, []c13Op{bulk}, []c13Op{merge, bulk})
+			for _, m2 := range []string{"low", "mem", "check"} {
+				paths = append(paths, []c13Op{merge, bulk, {K: "reload", V: m2}})
+			}
+			paths = append(paths, []c13Op{merge, bulk, {K: "cleave", A: 1, B: []uint64{2}}}, []c13Op{merge, bulk, {K: "del", P: 0}},
+				[]c13Op{merge, bulk, {K: "move", P: 0, Q: 5}})
+		}
+		var jobs []string
+		for _, p := range paths {
+			jobs = append(jobs, mk(p, false))
+		}
+		for i, r := range pool(jobs) {
+			res, ok := handle(r, paths[i])
+			if !ok {
+				continue
+			}
+			transitions++
+			states++
+			reads += int64(res.Reads)
+			c.Eval(1)
+			c.Nontrivial("bulk:" + fmt.Sprint(paths[i]))
+			for _, v := range res.Viol {
+				note(v)
+			}
+		}
+		c.Set("bulk_histories", len(paths))
 	}
 
 	// every failing class must reproduce from a fresh repo three times out of three
